@@ -138,6 +138,13 @@ func getEndOfLastValuePositionInFile(fname string, startPos int64) (int64, error
 // followReset clears everything that a replay of the log rebuilds: the
 // collections, the hooks and channels with their indexes, and the aof size.
 func (s *Server) followReset() {
+	if s.shrinking {
+		// The rewrite has written (part of) the dataset that is thrown away
+		// here, and what replaces it does not all pass through the shrink
+		// log. Its file must not become the log: make it give up.
+		s.shrinkrst = true
+		s.shrinklog = nil
+	}
 	s.cmdFLUSHDB(&Message{Args: []string{"flushdb"}})
 	s.reset()
 }
